@@ -81,10 +81,13 @@ WellFormed(g) == WFAbs(g) /\ WFCells(g)
 Retains(post, pre) == IBO(pre) \subseteq IBO(post)
 
 (* identities of every mutable object reachable from a projected genome *)
-Cells(g) == { g.traits[i].c : i \in DOMAIN g.traits } \cup { g.traits[i].pc : i \in DOMAIN g.traits }
+\* lpc: the backing array of a link's parameter vector (derived from its trait), where the projection records it
+LinkParamCell(x) == IF "lpc" \in DOMAIN x THEN x.lpc ELSE 0
+Cells(g) == ({ g.traits[i].c : i \in DOMAIN g.traits } \cup { g.traits[i].pc : i \in DOMAIN g.traits }
             \cup { g.nodes[i].c : i \in DOMAIN g.nodes }
             \cup { g.genes[i].c : i \in DOMAIN g.genes } \cup { g.genes[i].lc : i \in DOMAIN g.genes }
-            \cup { g.mods[i].c : i \in DOMAIN g.mods } \cup { g.mods[i].nc : i \in DOMAIN g.mods }
+            \cup { LinkParamCell(g.genes[i]) : i \in DOMAIN g.genes }
+            \cup { g.mods[i].c : i \in DOMAIN g.mods } \cup { g.mods[i].nc : i \in DOMAIN g.mods }) \ {0}
 
 (* identities a projected genome REFERS to: gene endpoints and traits, node traits, the id index *)
 Refs(g) == ({ g.genes[i].sc : i \in DOMAIN g.genes } \cup { g.genes[i].dc : i \in DOMAIN g.genes }
